@@ -419,6 +419,30 @@ def run(cx, rep):
         rep.ob("C14.6", "change-handler/unconditional", not early and not cond,
                "the change handler can skip updateFileContent (%s): the session cache then keeps the module parsed from the old text and later rebuilds differ from a fresh process" % (
                    "early exit before the update" if early else "update is conditional"), cmd.loc((early or cond or [fn])[0]))
+    # the change event reports the path that was handed to `watch`, and the handler uses it as the KEY of the session
+    # cache: it must be the very string the compiler asked to read (the parameter of the read callback), not a
+    # canonicalised spelling of it (realpath, resolve, normalize): the cache entry under the compiler's spelling would
+    # never be replaced
+    n_watch = 0
+    for n in tsast.walk(cmd.module):
+        if n["type"] != "CallExpression":
+            continue
+        mc = tsast.method_call(n)
+        if not mc or mc[1] != "watch" or not mc[2]:
+            continue
+        # only watches whose events reach the change handler
+        if not any(x["type"] == "CallExpression" and tsast.method_call(x) and tsast.method_call(x)[1] == "on" and any(y is n for y in tsast.walk(tsast.method_call(x)[0])) for x in tsast.walk(cmd.module)):
+            continue
+        n_watch += 1
+        arg = tsast.unparen(mc[2][0])
+        encl = [f_ for f_ in tsast.walk(cmd.module) if f_["type"] in ("ArrowFunctionExpression", "FunctionExpression", "FunctionDeclaration") and any(x is n for x in tsast.walk(f_))]
+        inner = min(encl, key=lambda f_: f_["span"]["end"] - f_["span"]["start"]) if encl else None
+        from rules import ts_common as _tc
+        ok = arg.get("type") == "Identifier" and inner is not None and arg["value"] in [p_ for p_ in _tc.fn_params(inner) if p_]
+        rep.ob("C14.6", "watch/path-is-the-compilers-key", ok,
+               "the path handed to the file watcher (`%s`) is not the very path the compiler asked to read: change events - and with them the key updateFileContent replaces - then use another spelling than the session cache, whose entry is never refreshed (a file reached through a symlink keeps its first content for the life of the session)" % tsast.s(arg)[:40],
+               cmd.loc(n))
+    rep.floor("C14.6", "watch registrations feeding the change handler", n_watch, 1)
     # ---------------------------------------------------------------- C14.8
     rep.rule("C14.8", "parsed modules kept by the session are immutable and carry no memo")
     cached_modules_immutable_rule(cx, rep, "C14.8")
